@@ -1,7 +1,8 @@
 /-
 Re-transcription of `dfir_lang::graph::graph_algorithms::topo_sort` (DFS over predecessors with
 temporary/permanent marks and the cycle reconstruction), used by the driver.
-The theorems about it live in project HvGraphAlg (C17); here it is only executed.
+It is only executed (window re-sort inside `try_merge`, driver op `depcycle`); `SubgraphMerge::new` sorts with
+C17's transcription (`TopoC17.lean`), for which the specification is proved (`Props/C19.lean`).
 -/
 import HvPart.Model.Basic
 
